@@ -201,6 +201,7 @@ JudgeOut judge(const json &plan)
 	eo.errno_override = 0; // ambient errno pinned: C04/C08 mechanisms cannot fire here
 	RunResult r = execute(plan, eo);
 	add_exec_counters(out, r);
+	note_schedule(out, plan);
 	death_and_stdout(r, "", out.viol);
 	out.viol.erase(std::remove_if(out.viol.begin(), out.viol.end(), [](const Violation &v) { return v.cls.compare(0, 7, "stdout:") == 0; }), out.viol.end());
 	std::string mode = plan.contains("params") ? plan["params"].value("mode", std::string("contexts")) : "contexts";
